@@ -9,22 +9,22 @@ HERE = os.path.dirname(os.path.abspath(__file__))
 CHECKS = {
  "C05": ("model_checking",
          "explicit-state BFS over real-store branches + ABCI conformance replay",
-         "Every history of <= d events (quick d=5, thorough d=6) over a 39-letter alphabet of create-pool / withdraw / send / direct creation / split / move / block-time events is executed on the real application; the backing identity, the pool inequalities, the three registered invariants and agreement with a boring reference model are evaluated in every state and on every transition; BFS-tree paths are replayed with real signed transactions through DeliverTx where 'a rejected message changes nothing' is decided against baseapp's real rollback.",
+         "Every history of <= d events (quick d=5, thorough d=6) over a 39-letter alphabet of create-pool / withdraw / send / direct creation / split / move / block-time events is executed on the real application; the backing identity, the pool inequalities, the three registered invariants and agreement with a boring reference model are evaluated in every state and on every transition; BFS-tree paths are replayed with real signed transactions through DeliverTx where 'a rejected message changes nothing' is decided against baseapp's real rollback. The first owner also sends its messages with its address spelled in upper-case bech32 (such messages are not predicted by the pool model; the state invariant decides).",
          "Cosmos SDK/Tendermint trusted; state identity = custom stores + bank + auth + relative block time; amounts and durations limited to the alphabet.",
          "DESIGN.md §3 C05"),
  "C06": ("model_checking",
          "explicit-state BFS over real-store branches + ABCI conformance replay",
-         "Every history of <= d events (quick 5, thorough 7) of one owner with three pools of different lock ends, sends (both restart modes), withdrawals and block steps that land before / exactly on / after every lock end. Every transition: a withdrawal pays exactly the matured remainders, leaves locked pools untouched and pays zero when repeated; a send only ever creates a brand-new continuous vesting account holding the amount. Every state: the pool query's withdrawable equals what a withdrawal on a branch of that state pays per pool.",
+         "Every history of <= d events (quick 5, thorough 7) of one owner with three pools of different lock ends, sends (both restart modes), withdrawals and block steps that land before / exactly on / after every lock end. Every transition: a withdrawal pays exactly the matured remainders, leaves locked pools untouched and pays zero when repeated; a send only ever creates a brand-new continuous vesting account holding the amount. Every state: the pool query's withdrawable equals what a withdrawal on a branch of that state pays per pool. The owner also holds a genesis pool locked until the year 2300, which must stay locked throughout.",
          "Same trusted base as C05; lock ends limited to 5/10/20 s and block steps to the listed set.",
          "DESIGN.md §3 C06"),
  "C02": ("model_checking",
          "exhaustive enumeration of configurations x all block cadences on real-store branches vs exact rational schedule",
-         "For ~4000 (quick) / ~6800 (thorough) valid minter configurations (1-3 periods of none / linear / exponential-step, multipliers 0..1, period ends mid-step) every strictly increasing subsequence of an 8 (quick) / 11 (thorough) point grid of block instants (start, period ends, step boundaries, each +-1ms/+-1ns, far jump) is run through the real Keeper.Mint on store branches; after every block the cumulative minted amount must equal floor(schedule(T)) computed in exact rationals (either neighbour only when the schedule is within the fixed-point error bound of an integer), be identical for every cadence, never negative, match the supply delta; finished linear periods must have minted exactly their amount and the sequence id must follow the schedule.",
+         "For ~4000 (quick) / ~6800 (thorough) valid minter configurations (1-3 periods of none / linear / exponential-step, multipliers 0..1, period ends mid-step) every strictly increasing subsequence of an 8 (quick) / 11 (thorough) point grid of block instants (start, period ends, step boundaries, each +-1ms/+-1ns, far jump) is run through the real Keeper.Mint on store branches; after every block the cumulative minted amount must equal floor(schedule(T)) computed in exact rationals (either neighbour only when the schedule is within the fixed-point error bound of an integer), be identical for every cadence, never negative, match the supply delta; finished linear periods must have minted exactly their amount and the sequence id must follow the schedule. The reduced two- and three-period families are repeated with period ids starting at 2 and at 5.",
          "Keeper-level (params written through real Validate/SetParams); amounts/steps/multipliers limited to the alphabet; periods of 15-20 s.",
          "DESIGN.md §3 C02"),
  "C19": ("exploration",
          "bounded-exhaustive input enumeration on the real BeginBlocker + query, exact rational oracle",
-         "Full product of minter configurations x initial supply {1,1e6,1e12+7,1e30} x millisecond-aligned instants (before start, first/later step, last ms of a period, exactly at the hand-over, after it, no-minting) reached directly or through an earlier block; the reported inflation (Inflation query and Mint event) in the state left by the real minter BeginBlocker must equal annualised-rate/supply within the derived fixed-point bound, be zero when nothing is emitted, and the amount minted over 1ms/1s/1h inside one step must be within one base unit of rate*interval/year.",
+         "Full product of minter configurations x initial supply {1,1e6,1e12+7,1e30} x millisecond-aligned instants (before start, first/later step, last ms of a period, exactly at the hand-over, after it, no-minting) reached directly or through an earlier block; the reported inflation (Inflation query and Mint event) in the state left by the real minter BeginBlocker must equal annualised-rate/supply within the derived fixed-point bound, be zero when nothing is emitted, and the amount minted over 1ms/1s/1h inside one step must be within one base unit of rate*interval/year. Open-ended exponential periods are also read 64.5, 65.5 and 150.5 steps in.",
          "Inflation is only evaluated in keeper-reachable states; step durations 10 s and 4 years; tolerance derived from operation counts.",
          "DESIGN.md §3 C19"),
  "C03": ("model_checking",
@@ -44,22 +44,22 @@ CHECKS = {
          "DESIGN.md §3 C07"),
  "C08": ("exploration",
          "bounded-exhaustive input enumeration on the real message handlers, rational schedule oracle",
-         "Full product of vesting type (free {0,0.05,1/3,0.5,1} x lockup {0,5,10}s x vesting {0,5,10}s) x pool remainder x amount {0,1,3,7,19,rem,rem+1} x restart flag x block time {before, at, after pool lock end} x recipient state {absent, base, vesting, blocked module, gov module}, plus direct creation over coins x (start,end) x recipient state. Outcome must match the documented rule; recipient gets exactly the amount, original vesting = floor(amount*(1-free)) in rationals, schedule compared behaviourally (locked coins at 9 later instants), sent counter and implicit withdrawal exact.",
+         "Full product of vesting type (free {0,0.05,1/3,0.5,1} x lockup {0,5,10}s x vesting {0,5,10}s) x pool remainder x amount {0,1,3,7,19,rem,rem+1} x restart flag x block time {before, at, after pool lock end} x recipient state {absent, base, vesting, blocked module, gov module}, plus direct creation over coins x (start,end) x recipient state. Outcome must match the documented rule; recipient gets exactly the amount, original vesting = floor(amount*(1-free)) in rationals, schedule compared behaviourally (locked coins at 9 later instants), sent counter and implicit withdrawal exact. Both tiers include vesting types of 150y+150y, 292y+0 and 0+292y; the thorough tier widens every axis (free shares 1e-18..1-1e-18, periods up to 3600, minute/hour/day units, remainders up to 1e24-1, amounts -1..rem+1, pools that already sent to another account: ~230 000 cases).",
          "Whole-second block times; schedule fields compared only when the vesting part is non-empty.",
          "DESIGN.md §3 C08"),
  "C09": ("model_checking",
          "explicit-state BFS over real-store branches + ABCI conformance replay",
-         "Every sequence of <= 3 (quick) / 4 (thorough) account-creating messages (pool send, direct creation, split, move, move-by-denoms from owner and stranger, cfesignature create-account with matching / foreign / malformed key by two creators) aimed at every target state (absent, base, base with key and sequence 7, continuous vesting with delegation, delayed vesting, blocked module, gov module, the sender itself); after every transition the raw x/auth record of every pre-existing address must be byte-identical, except the signer's own sequence/public key (ante handler) and the reduction of the split/move sender's original vesting.",
+         "Every sequence of <= 3 (quick) / 4 (thorough) account-creating messages (pool send, direct creation, split, move, move-by-denoms from owner and stranger, cfesignature create-account with matching / foreign / malformed key by two creators) aimed at every target state (absent, base, base with key and sequence 7, continuous vesting with delegation, delayed vesting, blocked module, gov module, the sender itself); after every transition the raw x/auth record of every pre-existing address must be byte-identical, except the signer's own sequence/public key (ante handler) and the reduction of the split/move sender's original vesting. Pool sends of 0 and 1, creation without coins and move-by-denoms of an unknown denom are part of the alphabet, as is a second sender with two denominations whose delegation is tracked as both delegated-vesting and delegated-free.",
          "cfesignature create-account is driven through the exported msg server (the app does not route it); vesting messages through the real router.",
          "DESIGN.md §3 C09"),
  "C14": ("fault_enumeration",
          "exhaustive enumeration of failing bank calls (deviation bounded) on the real distributor with a decorated bank keeper",
-         "54 configurations (every account type as source and destination, burn share, chains and fan-in over internal accounts) x a 2-block inflow history: the fault-free twin fixes the number n of mutating bank calls; every non-empty subset of failing calls is run when n+1 <= 10, otherwise every subset of size <= 3, followed by a fault-free suffix of 2 blocks. After every block C03's identity must hold; after the suffix every destination balance and the burned total must be within one base unit of the fault-free twin.",
-         "A failing bank call has no side effect; keeper built with the exported NewKeeper over the app's own stores.",
+         "54 configurations (every account type as source and destination, burn share, chains and fan-in over internal accounts) x a 2-block inflow history: the fault-free twin fixes the number n of mutating bank calls; every non-empty subset of failing calls is run when n+1 <= 10, otherwise every subset of size <= 3, followed by a fault-free suffix of 2 blocks. After every block C03's identity must hold; after the suffix every destination balance and the burned total must be within one base unit of the fault-free twin. Failures are injected clean and half-way (first denomination moved, then the error); two fault-free suffixes are run: one bringing new coins and one in which nothing arrives at all.",
+         "A failing bank call either has no side effect or has moved the first denomination only; keeper built with the exported NewKeeper over the app's own stores.",
          "DESIGN.md §3 C14"),
  "C17": ("model_checking",
          "explicit-state BFS over real-store branches + ABCI conformance replay",
-         "Every history of <= 5 (quick) / 6 (thorough) events over sends from a genesis and a non-genesis pool, split / move / move-by-denoms from every vesting account created so far (genesis, traced non-genesis, untraced, and the fresh ones), delegations from vesting accounts and block steps of 1/20/40 s; in every state the set of recorded accounts and their genesis-derived flag must equal a lineage model, and both summary queries must equal recomputation from bank and account state.",
+         "Every history of <= 5 (quick) / 6 (thorough) events over sends from a genesis and a non-genesis pool, split / move / move-by-denoms from every vesting account created so far (genesis, traced non-genesis, untraced, and the fresh ones), delegations from vesting accounts and block steps of 1/20/40 s; in every state the set of recorded accounts and their genesis-derived flag must equal a lineage model, and both summary queries must equal recomputation from bank and account state. The owner's pools are [genesis, ordinary, genesis].",
          "Amounts fixed (send 8, split 2); one validator.",
          "DESIGN.md §3 C17"),
  "C18": ("model_checking",
@@ -79,22 +79,22 @@ CHECKS = {
          "DESIGN.md §3 C10"),
  "C13": ("model_checking",
          "explicit-state BFS over the full application on real-store branches + ABCI conformance replay",
-         "Every sequence of <= 4 (quick) / 5 (thorough) events over the 7 parameter-update message types x authority {gov, user, empty, garbage} x 33 payloads (valid, invalid, partially valid: share pushing the sum to 1, burn share 1, replacement breaking the MAIN ordering rule, minters missing the current id, unordered, gap, linear last, denom changes) interleaved with blocks that move the minter to the next period and a create-pool message. Every state: stored parameters of all three modules validate and contain the minter's current period. Every transition: non-gov authority is rejected, a rejected update leaves all parameter bytes unchanged, an accepted one stores exactly the requested value, the vesting denom never changes while pools exist, no other message changes parameters.",
+         "Every sequence of <= 4 (quick) / 5 (thorough) events over the 7 parameter-update message types x authority {gov, user, empty, garbage} x 33 payloads (valid, invalid, partially valid: share pushing the sum to 1, burn share 1, replacement breaking the MAIN ordering rule, minters missing the current id, unordered, gap, linear last, denom changes) interleaved with blocks that move the minter to the next period and a create-pool message. Every state: stored parameters of all three modules validate and contain the minter's current period. Every transition: non-gov authority is rejected, a rejected update leaves all parameter bytes unchanged, an accepted one stores exactly the requested value, the vesting denom never changes while pools exist, no other message changes parameters. Withdraw / send-all events empty the pool without removing its record; three proposals whose second message fails must leave no trace; every authority payload is also run through a real governance proposal (submit, vote, EndBlocker) and must agree with the shortcut.",
          "Authority messages are executed the way x/gov executes them (router handler on a cache branch).",
          "DESIGN.md §3 C13"),
  "C15": ("model_checking",
          "explicit-state BFS over real-store branches + ABCI conformance replay (commits in between) + exhaustive single-field mutation list",
-         "Every history of <= 4 (quick) / 5 (thorough) publish / store messages over 2 reference ids x 3 link values (incl. empty) and 3 storage keys x 5 signature payloads (valid ECDSA P-256, valid RSA-2048, valid over the other link, missing field, malformed JSON) with blocks in between; in every state the raw payload-link entries must equal a first-writer-wins model and VerifySignature for every (address, reference) must succeed exactly when an independent crypto/ecdsa / crypto/rsa verification of the stored record over sha256(addr:ref:link) passes, returning signature, algorithm, certificate and timestamp unchanged. 718 single-field mutations of 4 valid records (a bit flipped at every byte of the signature, algorithm / certificate swapped, unknown, empty, truncated; address, reference id, link swapped) must all fail verification. BFS-tree paths are replayed through ABCI with real commits, so values are read back from IAVL.",
+         "Every history of <= 4 (quick) / 5 (thorough) publish / store messages over 2 reference ids x 3 link values (incl. empty) and 3 storage keys x 5 signature payloads (valid ECDSA P-256, valid RSA-2048, valid over the other link, missing field, malformed JSON) with blocks in between; in every state the raw payload-link entries must equal a first-writer-wins model and VerifySignature for every (address, reference) must succeed exactly when an independent crypto/ecdsa / crypto/rsa verification of the stored record over sha256(addr:ref:link) passes, returning signature, algorithm, certificate and timestamp unchanged. 718 single-field mutations of 4 valid records (a bit flipped at every byte of the signature, algorithm / certificate swapped, unknown, empty, truncated; address, reference id, link swapped) must all fail verification. BFS-tree paths are replayed through ABCI with real commits, so values are read back from IAVL. Links ending with the separator, the empty link and publishes under case variants / a trailing-space variant of a published key are part of the alphabet.",
          "Messages driven at the exported msg-server seam (the app does not route them); fixtures committed.",
          "DESIGN.md §3 C15"),
  "C20": ("exploration",
          "bounded-exhaustive input enumeration (full product of per-field boundary alphabets) under recover()",
-         "For all 17 message types the full product of per-field boundary alphabets (addresses, Int/Dec incl. omitted-on-the-wire nil, Coins incl. nil amount / duplicates / invalid denom, durations and times incl. int64 extremes, Any incl. nil / foreign type / empty type url, nil pointers and nil slice elements, strings, JSON) - 21 672 inputs - each taken through a protobuf marshal / unmarshal / UnpackInterfaces round trip and run in 3 states (empty, populated, pool whose vesting type was removed): ValidateBasic must not panic, if it passes the handler (real router; msg server for cfesignature) must not panic and GetSigners must not panic; every query of the four modules with nil and boundary requests must not panic.",
+         "For all 17 message types the full product of per-field boundary alphabets (addresses, Int/Dec incl. omitted-on-the-wire nil, Coins incl. nil amount / duplicates / invalid denom, durations and times incl. int64 extremes, Any incl. nil / foreign type / empty type url, nil pointers and nil slice elements, strings, JSON) - 21 672 inputs - each taken through a protobuf marshal / unmarshal / UnpackInterfaces round trip and run in 4 states (empty, populated, pool whose vesting type was removed, matured pools summing above int64): ValidateBasic must not panic, if it passes the handler (real router; msg server for cfesignature) must not panic and GetSigners must not panic; every query of the four modules with nil and boundary requests must not panic. Since wave 4: 2^63 in the amount alphabets and a fourth state with two matured pools whose remainders sum above int64.",
          "Inputs that cannot be encoded/decoded are counted as unreachable and not executed.",
          "DESIGN.md §3 C20"),
  "C11": ("model_checking",
          "exhaustive history set (BFS trees of six scenarios) executed by independent OS processes through ABCI, transcripts compared",
-         "The maximal BFS-tree histories of six scenarios (supply c01, vesting c05, parameters c10 and c13, signature c15, lineage c17: ~7 400 histories quick, depth 3; depth 4 thorough) are each executed by R independent OS processes (R=2 quick, 4 thorough) strictly through InitChain / BeginBlock / DeliverTx (real signed transactions) / EndBlock / Commit; per ABCI response the deterministic fields (code, codespace, data, gas wanted/used, events) and every Commit app hash must be identical.",
+         "The maximal BFS-tree histories of six scenarios (supply c01, vesting c05, parameters c10 and c13, signature c15, lineage c17: ~7 400 histories quick, depth 3; depth 4 thorough) are each executed by R independent OS processes (R=2 quick, 4 thorough) strictly through InitChain / BeginBlock / DeliverTx (real signed transactions) / EndBlock / Commit; per ABCI response the deterministic fields (code, codespace, data, gas wanted/used, events) and every Commit app hash must be identical. A seventh scenario gives every collection the distributor walks >= 2 elements. Replica 0 is a plain node; every other replica is restarted after every block (new application object over the same database) and runs CheckTx + Simulate around every delivered transaction, and starts 1.3 s later; histories include proposals whose second message fails.",
          "Exhaustive over the listed histories, not over Go map iteration orders (stated limit): a state-affecting map iteration is missed by one history with probability <= 2^-(R-1). Log/Info strings excluded (ABCI declares them non-deterministic).",
          "DESIGN.md §3 C11"),
  "C12": ("model_checking",
@@ -104,7 +104,7 @@ CHECKS = {
          "DESIGN.md §3 C12"),
  "C16": ("exploration",
          "bounded-exhaustive enumeration of pre-upgrade stores in the previous format, whole upgrade handler executed",
-         "Product alphabet of pre-upgrade states written in the previous store format (v2 pools and traces under the old prefixes, legacy x/params subspaces, module versions 2): pool layouts of the hard-coded owner (subsets and orders of Validators / Advisors / other pool; currently locked in {0, sum-1, sum, sum+1, 2*sum}; with and without sent/withdrawn history), a second owner's pool of the removed type, vesting type present/absent, the four hard-coded accounts in 5 kinds, 6 legacy minter and 4 legacy distributor parameter sets (344 cases quick, ~2 400 thorough); each case runs the whole registered v1.2.0 handler through UpgradeKeeper.ApplyUpgrade. Total locked and module balance unchanged, every pool's sent/withdrawn unchanged, solvency and registered invariants, split all-or-nothing, shifted accounts keep amounts, other accounts byte-identical, traces preserved, migrated minter parameters validate and give the same exact-rational schedule on a time grid, distributor parameters byte-equal.",
+         "Product alphabet of pre-upgrade states written in the previous store format (v2 pools and traces under the old prefixes, legacy x/params subspaces, module versions 2): pool layouts of the hard-coded owner (subsets and orders of Validators / Advisors / other pool; currently locked in {0, sum-1, sum, sum+1, 2*sum}; with and without sent/withdrawn history), a second owner's pool of the removed type, vesting type present/absent, the four hard-coded accounts in 5 kinds, 6 legacy minter and 4 legacy distributor parameter sets (344 cases quick, ~2 400 thorough); each case runs the whole registered v1.2.0 handler through UpgradeKeeper.ApplyUpgrade. Total locked and module balance unchanged, every pool's sent/withdrawn unchanged, solvency and registered invariants, split all-or-nothing, shifted accounts keep amounts, other accounts byte-identical, traces preserved, migrated minter parameters validate and give the same exact-rational schedule on a time grid, distributor parameters byte-equal. Owner sets include pools already named like the pools the split creates (matched as a multiset).",
          "In-process on a store branch of an application whose genesis has no ICA state.",
          "DESIGN.md §3 C16"),
 }
